@@ -293,6 +293,7 @@ class _Walker:
         self.stores: dict[str, int] = {}
         self.callver: dict[str, int] = {}
         self.callmods: dict[tuple, int] = {}  # (receiver, attribute the callee may store) -> number of such calls so far
+        self._try_leaves: list = []  # per enclosing try body: version states at the statements that leave it
 
     # -- expressions -------------------------------------------------------------------------
     def ev(self, e: ast.AST, env: dict) -> ast.AST:
@@ -425,12 +426,16 @@ class _Walker:
             if v is not None:
                 self._record_calls(v, cond, st, env)
             self.flow.returns.append(Ret(cond, v, st))
+            if self._try_leaves:
+                self._try_leaves[-1].append(self._vsave())
             return None
         if isinstance(st, ast.Raise):
             v = self.ev(st.exc, env) if st.exc is not None else _name("RERAISE")
             self.flow.effects.append(Eff(cond, "raise", v, st))
             return None
         if isinstance(st, (ast.Break, ast.Continue)):
+            if self._try_leaves:
+                self._try_leaves[-1].append(self._vsave())
             return None
         if isinstance(st, ast.If):
             t = self.ev(st.test, env)
@@ -525,8 +530,12 @@ class _Walker:
                 del env[fk]
             names = _assigned_names(st.body)
             v0 = self._vsave()
+            self._try_leaves.append([])
             r0 = self.block(st.body, dict(env), cond)
             vs = [self._vsave()]
+            # an exception can come from anywhere in the body, also from a branch that then leaves it (continue / break / return):
+            # the handler sees the newest version any of them produced
+            left = self._try_leaves.pop()
             henv = dict(env)
             for j, n in enumerate(names):
                 henv[n] = _name(f"TRY{k}.{j}")
@@ -541,7 +550,7 @@ class _Walker:
                 ty = self.ev(h.type, env) if h.type is not None else _name("BaseException")
                 if h.name:
                     he[h.name] = _name(f"EXC{k}")
-                self._vjoin([v0, vs[0]])
+                self._vjoin([v0, vs[0]] + left)
                 rh = self.block(h.body, he, cond + ((ast.Call(func=_name(f"EXCEPT{k}"), args=[ty], keywords=[]), True),))
                 if rh is not None:
                     outs.append(rh)
@@ -803,6 +812,22 @@ def _atom_theory(atoms: list) -> list:
             for b in (f"Is({x}, None)", f"Is(None, {x})"):
                 if b in aset:
                     out.append([(a, True), (b, True)])
+    # orderings of one quantity against integer constants:  T < K1 implies T < K2 for K1 <= K2;  T == k decides T < K
+    lts: dict = {}
+    for a in atoms:
+        mm = re.match(r"^Lt\((.+), (-?\d+)\)$", a)
+        if mm and Printer._balanced(mm.group(1)):
+            lts.setdefault(mm.group(1), []).append((int(mm.group(2)), a))
+    for x, lst in lts.items():
+        lst.sort()
+        for i in range(len(lst)):
+            for j in range(i + 1, len(lst)):
+                if lst[i][0] <= lst[j][0]:
+                    out.append([(lst[i][1], True), (lst[j][1], False)])
+        for c, a in eqs.get(x, []):
+            if not c.startswith("'"):
+                for kk, la in lst:
+                    out.append([(a, True), (la, not (int(c) < kk))])
     for a in atoms:
         if a.startswith("Eq(str, type(") and a.endswith("))"):
             x = a[len("Eq(str, type("):-2]
@@ -927,7 +952,82 @@ class Printer:
                     e = ast.Compare(left=e.comparators[0], ops=[ast.Lt()], comparators=[e.left])
                     pol = not pol
                     continue
+                if isinstance(op, ast.Lt) and not getattr(e, "_lin_cmp", False):
+                    n2 = self._linear_compare(e)
+                    if n2 is not None:
+                        e, flip = n2
+                        if flip:
+                            pol = not pol
+                if isinstance(op, ast.Eq) and not getattr(e, "_lin_cmp", False) and any(
+                        isinstance(x, ast.BinOp) and isinstance(x.op, (ast.Add, ast.Sub)) for x in (e.left, e.comparators[0])):
+                    n2 = self._linear_compare(e, eq=True)
+                    if n2 is not None:
+                        e = n2[0]
             return e, pol
+
+    def _linear_compare(self, e: ast.Compare, eq: bool = False):
+        """l < r over integer-linear sides with an integer constant: one canonical atom `T < K` (T: the non-constant terms with a
+        positive leading coefficient, K: an integer), possibly negated -- `i - 1 >= 0`, `i >= 1`, `i > 0`, `not i < 1` are one atom.
+        (`T > k` is `not T < k + 1`: the compared quantities of this code base are integers.)"""
+        terms: dict = {}
+        const = [0]
+        seen_const = [False]
+
+        def rec(x: ast.AST, sign: int) -> bool:
+            if isinstance(x, ast.BinOp) and isinstance(x.op, ast.Add) and not _seqlike(x):
+                return rec(x.left, sign) and rec(x.right, sign)
+            if isinstance(x, ast.BinOp) and isinstance(x.op, ast.Sub):
+                return rec(x.left, sign) and rec(x.right, -sign)
+            if isinstance(x, ast.UnaryOp) and isinstance(x.op, ast.USub):
+                return rec(x.operand, -sign)
+            if isinstance(x, ast.Constant):
+                if isinstance(x.value, int) and not isinstance(x.value, bool):
+                    const[0] += sign * x.value
+                    seen_const[0] = True
+                    return True
+                return False
+            if _seqlike(x):
+                return False
+            k = self._show(x)
+            if k not in terms:
+                terms[k] = [0, x]
+            terms[k][0] += sign
+            return True
+
+        if not (rec(e.left, 1) and rec(e.comparators[0], -1)) or (eq and not seen_const[0]):
+            return None
+        live = sorted(((k, c, x) for k, (c, x) in terms.items() if c != 0), key=lambda t: t[0])
+        if not live:
+            return None
+        # sum(c_k t_k) + const < 0
+        flip = live[0][1] < 0
+        c0 = const[0]
+        if flip:
+            live = [(k, -c, x) for k, c, x in live]
+        pos = [copy.deepcopy(x) for k, c, x in live if c > 0 for _ in range(c)]
+        neg = [copy.deepcopy(x) for k, c, x in live if c < 0 for _ in range(-c)]
+        t: ast.AST = pos[0]
+        for x in pos[1:]:
+            t = ast.BinOp(left=t, op=ast.Add(), right=x)
+        for x in neg:
+            t = ast.BinOp(left=t, op=ast.Sub(), right=x)
+        for n in ast.walk(t):
+            if isinstance(n, ast.BinOp):
+                n._lin_done = True  # type: ignore[attr-defined]
+        if eq:
+            # +-T + c0 == 0   <=>   T == -+c0
+            out = ast.Compare(left=ast.Constant(value=c0 if flip else -c0), ops=[ast.Eq()], comparators=[t])
+            out._lin_cmp = True  # type: ignore[attr-defined]
+            return out, False
+        if not flip:
+            # T + c0 < 0   <=>   T < -c0
+            out = ast.Compare(left=t, ops=[ast.Lt()], comparators=[ast.Constant(value=-c0)])
+            out._lin_cmp = True  # type: ignore[attr-defined]
+            return out, False
+        # -T + c0 < 0   <=>   T > c0   <=>   not (T < c0 + 1)      (integers)
+        out = ast.Compare(left=t, ops=[ast.Lt()], comparators=[ast.Constant(value=c0 + 1)])
+        out._lin_cmp = True  # type: ignore[attr-defined]
+        return out, True
 
     def show_test(self, e: ast.AST) -> str:
         """Canonical print of an expression used for its truth value only."""
@@ -942,7 +1042,18 @@ class Printer:
             kind = "and" if isinstance(e.op, ast.And) else "or"
             if not pol:
                 kind = "or" if kind == "and" else "and"
-            return self._mk(kind, [self._bool(v, pol) for v in e.values])
+            vals = list(e.values)
+            if any(isinstance(n, ast.IfExp) for v in vals[1:] for n in ast.walk(v)):
+                # short circuit: a later operand is evaluated only when the earlier ones were true (and) / false (or); a conditional
+                # value inside it whose test that decides is the selected arm
+                ctx = ("const", True)
+                out_vals = []
+                for v in vals:
+                    v2 = self.resolve_under(v, ctx) if ctx != ("const", True) else v
+                    out_vals.append(v2)
+                    ctx = self._mk("and", [ctx, self._bool(v2, isinstance(e.op, ast.And))])
+                vals = out_vals
+            return self._mk(kind, [self._bool(v, pol) for v in vals])
         if isinstance(e, ast.IfExp):
             c = e.test
             a, b = self._bool(e.body, pol), self._bool(e.orelse, pol)
@@ -967,7 +1078,53 @@ class Printer:
                 return ("const", (l.value is None) == pol)
             if isinstance(l, ast.Call) and isinstance(l.func, ast.Name) and self._is_class(l.func.id):
                 return ("const", not pol)
+            if self._never_none(l):
+                return ("const", not pol)
         return ("lit", self._show(e, atom=True), pol)
+
+    def resolve_under(self, expr: ast.AST, cb) -> ast.AST:
+        """`expr` with every conditional value whose test the boolean formula `cb` decides replaced by the selected arm."""
+        if not any(isinstance(n, ast.IfExp) for n in ast.walk(expr)):
+            return expr
+        pr = self
+
+        def decided(test: ast.AST):
+            t = pr._tables([pr._mk("and", [cb, pr._bool(test)]), pr._mk("and", [cb, pr._bool(test, False)])])
+            if t is None:
+                return None
+            if t[1][1] == 0 and t[1][0] != 0:
+                return True
+            if t[1][0] == 0 and t[1][1] != 0:
+                return False
+            return None
+
+        class T(ast.NodeTransformer):
+            def visit_IfExp(self, n: ast.IfExp):
+                d = decided(n.test)
+                if d is True:
+                    return self.visit(n.body)
+                if d is False:
+                    return self.visit(n.orelse)
+                return self.generic_visit(n)
+
+        return T().visit(copy.deepcopy(expr))
+
+    def _never_none(self, e: ast.AST) -> bool:
+        """An element of an attribute annotated as a list / tuple of int (e.g. `self.stalled: list[int] | None`): never None."""
+        m = self.model
+        if m is None or not (isinstance(e, ast.Subscript) and isinstance(e.value, ast.Attribute) and not isinstance(e.slice, ast.Slice)):
+            return False
+        memo = m.__dict__.setdefault("_symflow_elem_int", {})
+        attr = e.value.attr
+        if attr not in memo:
+            anns = []
+            for f in m.functions.values():
+                for n in ast.walk(f.__dict__.get("raw_node", f.node)):
+                    if isinstance(n, ast.AnnAssign) and isinstance(n.target, ast.Attribute) and n.target.attr == attr:
+                        anns.append(" ".join(ast.unparse(n.annotation).split()))
+            import re as _re
+            memo[attr] = bool(anns) and all(_re.fullmatch(r"(Optional\[)?(list|tuple|List|Tuple)\[int(, (int|\.\.\.))*\]\]?( \| None)?", a) for a in anns)
+        return memo[attr]
 
     def _is_class(self, name: str) -> bool:
         m = self.model
